@@ -522,4 +522,7 @@ func pvc_old[T any](x T) T       { return x }
 func pvc_assert(b bool)          {}
 func pvc_assume(b bool)          {}
 func pvc_havoc[T any](x *T)      {}
+
+// pvc_idx names the iteration counter of a range loop that has no index variable.
+var pvc_idx int
 `
